@@ -45,5 +45,10 @@ def run(rep: Report, tier: str) -> None:
 
     rd = rep.rule("C09.d", "lots keep the exact instant of their spreadsheet row through the parser's crypto-fee split (C11.e restated): a back-dated lot would become a candidate of an earlier disposal", floor=20)
     c11.check_split(rep, rd)
+    from .c17 import check_caches
+
+    re_ = rep.rule("C09.e", "the matcher keeps no memo keyed by lots or events (their equality is the row id: rows of another asset, or of the longer history, would answer) (C17.c restated)", floor=0)
+    if check_caches(rep, re_, m, ("rp2.abstract_accounting_method", "rp2.accounting_engine", "rp2.tax_engine", "rp2.plugin.accounting_method.fifo", "rp2.plugin.accounting_method.lifo", "rp2.plugin.accounting_method.hifo", "rp2.plugin.accounting_method.lofo", "rp2.in_transaction", "rp2.abstract_transaction")) == 0:
+        rep.ok(re_, "no functools cache in the lot-matching modules")
     rc = rep.rule("C09.c", "the engine consumes events and lots through time-sorted entry-set iterators over the unfiltered sets", floor=4)
     engine.check_chronological_input(rep, rc)
